@@ -6172,11 +6172,15 @@ class Path(Shape, MutableSequence):
         last_segment = self._segments[-1]
         if isinstance(last_segment, QuadraticBezier):
             previous_control = last_segment.control
-            return previous_control.reflected_across(start_pos)
         elif isinstance(last_segment, CubicBezier):
             previous_control = last_segment.control2
-            return previous_control.reflected_across(start_pos)
-        return start_pos
+        else:
+            return start_pos
+        if previous_control is None:
+            # The previous curve began a fragment without a current point and has no control point
+            # of its own: there is nothing to reflect.
+            return start_pos
+        return previous_control.reflected_across(start_pos)
 
     def start(self):
         pass
